@@ -5,9 +5,41 @@ import json, subprocess, sys
 
 CLAIMS = {
  # id: (technique, level text, level note, design_ref)
- "C18": ("AST+types: option-bit wiring followed by object identity (Config field -> exported constant -> canonical bit -> setter)",
-         "Static necessary-condition check: every Config field, setter and exported option constant is resolved by object through its initialiser chain to one canonical bit; decides 'each switch reaches its own bit, and only that bit, at every layer'. Does not decide value-level behaviour of the consumers.",
-         "Trusts go/types constant/object resolution and the frozen wiring table (16 fields, 13 setters); linux/amd64 (thorough: +arm64). 'No other effect' at the value level is not decided.",
+ "C02": ("must-pass-through on entry points (AST/CFG): trailing check after a validating native; constant relations",
+         "Static necessary-condition check: each JSON-consuming entry point performs a trailing check on its success path after a validating native (ValidateOne / SkipOne with flag word 0), and the nesting limit is one constant in every layer. The accept language itself lives in native byte arrays and is not decided.",
+         "Trusts that native ValidateOne/SkipOne validate structure; Get/NewRaw trailing bytes are a recorded known finding (F-4).",
+         "DESIGN.md §3.5 F-trailing, §4 C02"),
+ "C08": ("guarded-by analysis of all package-level state: locksets over go/cfg, atomic-only sinks, init-only writers, RCU/copy-on-write freshness",
+         "Static necessary-condition check: every package-level variable written after init is in a reviewed class (mutex-guarded, atomic-only, init-only, hook) whose condition is re-proved on each run; the RCU program cache is published atomically under its mutex and only fresh copies are mutated. Interleavings are not explored.",
+         "Trusts sync/atomic, sync.Mutex, sync.Pool; objects handed to natives are assumed unshared. Value-level determinism under concurrency is not decided.",
+         "DESIGN.md §3.4 L1/L2, §4 C08"),
+ "C10": ("constant/layout relations via go/types Sizes and constant evaluation; emitter-template extraction for frame adjustments",
+         "Static necessary-condition check: GC pointer bitmaps equal the generated functions' parameter words, stack pre-growth covers generated+native frames, prologue/epilogue/Load share one frame constant, hard-coded state-stack offsets equal struct offsets.",
+         "Trusts types.SizesFor(gc,amd64) and the asm2asm-generated _stack__ constants. pcsp/funcdata tables, preemption/stack-move safety per instruction are not decided.",
+         "DESIGN.md §3.6 K1-K3, §4 C10"),
+ "C13": ("sibling agreement of the SSE/AVX2 dispatch tables and generated export rows (AST set extraction, type identity)",
+         "Dispatch clause only: both dispatchers assign the same variables, each once, from their own package and the identically named routine; export rows are identical in shape. Equality of the two compiled variants is NOT decided.",
+         "Byte arrays of the natives are not analysed (no tool in the sandbox reads them).",
+         "DESIGN.md §3.6 S2, §4 C13"),
+ "C14": ("sibling agreement of the two key-lookup paths; effect-freedom of lookup methods",
+         "Thin structural clauses: the indexed and the linear key lookup implement the same duplicate-key policy (first occurrence), and lookup methods are effect-free on their receiver. Whether the native search lands on the right bytes is NOT decided.",
+         "native get_by_path/skip are byte arrays; typed accessor values are runtime values.",
+         "DESIGN.md §3.6 S5, §4 C14"),
+ "C15": ("sibling agreement (duplicate-key policy), must-touch pairing of index maintenance, must-precede guard of mutators, effect-freedom of lookups",
+         "Thin structural clauses of the lazy tree: one duplicate-key policy, every slot writer maintains the key index, each mutator forces the parsed form before its first store, lookups never write. Equality with an ordered-map model over histories is NOT decided.",
+         "Operation histories are not explored; only the mechanisms that make laziness unobservable are checked.",
+         "DESIGN.md §3.6 S5/S8/S9, §4 C15"),
+ "C16": ("lockset analysis over go/cfg of the per-node RWMutex discipline; publication-order and whole-node-store rules",
+         "Static necessary-condition check: raw text is read only under the node lock, the lazy-parse result is published atomically (fields first, type last) and never replaces the held mutex, load-once children carry their own lock, lookups are effect-free. Interleavings are not explored.",
+         "Trusts sync.RWMutex; LoadAll / parseRaw(full) are exclusive by documented contract.",
+         "DESIGN.md §3.4 L3, §4 C16"),
+ "C17": ("error-propagation dataflow on go/cfg (must-propagate before redefinition/exit, nil-branch discharge), reaching-definition freshness of read offsets, must-pass-through progress rule",
+         "Static necessary-condition check of the stream codec's error/ownership clauses: no reader/writer error is dropped or shadowed, the sticky error discipline holds, Decode cannot succeed without progress, read offsets are fresh on every path, the framed value is copied, the short-write loop is well formed. Value-sequence equality over chunkings is NOT decided.",
+         "Assumes readers repeat a delayed error on the next Read (encoding/json's idiom).",
+         "DESIGN.md §3.5 F-errdrop, §4 C17"),
+ "C18": ("AST+types: option-bit wiring followed by object identity (Config field -> exported constant -> canonical bit -> setter -> consumer), shim delegation",
+         "Static necessary-condition check: every Config field, setter and exported option constant is resolved by object through its initialiser chain to one canonical bit; each bit keeps its consumers in both executors; entry-point shims delegate to ConfigDefault in order. Value-level 'no other effect' is not decided.",
+         "Trusts go/types constant/object resolution and the frozen wiring tables (16 fields, 13 setters, consumer table). optdec ignoring UseUnicodeErrors is a recorded known finding (F-7).",
          "DESIGN.md §3.1, §4 C18"),
 }
 
